@@ -386,8 +386,7 @@ theorem groLoop_pairs_total (excl : List (List Char)) (n : Nat) (tail : List (Li
         (by simp only [List.length_cons] at hn; omega)
       simp only [bind, Except.bind, pure, Except.pure, ih]
 
-/-- **overflow in a GRO file stays where it is.**  For ANY system with at least one atom, whose first
-atom line does not hold exactly three points in its name columns (`groFirstOk`) and whose atoms
+/-- **overflow in a GRO file stays where it is.**  For ANY system with at least one atom whose atoms
 satisfy `groKeepB` — residue numbers beyond 99999, names of any length, coordinates beyond the
 eight columns — the file `write_gro` produces is read back by `read_gro` (which first detects the
 column width on the first atom line) with the same number of atoms in the same order, the k-th
@@ -395,18 +394,17 @@ being `truncGAtomOf` of the k-th written: fields that fit exact (`trunc_id_of_fi
 fields reduced to what their own columns show. -/
 theorem gro_file_overflow_local (excl : List (List Char)) (sys : List Mol) (title : List Char)
     (tail : List (List Char))
-    (hfirst : groFirstOk (groPairs 1 sys) = true) (hall : ∀ p ∈ groPairs 1 sys, groKeepB excl p.2 = true)
+    (hne : groPairs 1 sys ≠ []) (hall : ∀ p ∈ groPairs 1 sys, groKeepB excl p.2 = true)
     (htail : tail = [] ∨ ∃ b t, tail = b :: t ∧ (readFields readFieldGro b (groSlices 8)).toOption = none) :
     readGro gro excl false (title :: natDigits (writeGro gro sys).length :: (writeGro gro sys ++ tail)) =
       .ok ((groPairs 1 sys).map fun p => truncGAtomOf p.1 p.2) := by
   have hw : writeGro gro sys = (groPairs 1 sys).map fun p => groLine gro p.1 p.2 := writeGro_eq gro sys 1
   rw [hw]
   cases hps : groPairs 1 sys with
-  | nil => rw [hps] at hfirst; cases hfirst
+  | nil => exact absurd hps hne
   | cons p ps =>
-    rw [hps] at hall hfirst
-    have hd : groNameDots p.2 ≠ 3 := by simpa [groFirstOk] using hfirst
-    obtain ⟨d1, d2⟩ := gro_detect p.1 p.2 hd
+    rw [hps] at hall
+    obtain ⟨d1, d2⟩ := gro_detect p.1 p.2
     have hdet : groDetect gro (groLine gro p.1 p.2) = ⟨groSlices 8, false⟩ := by
       cases hd : groDetect gro (groLine gro p.1 p.2) with
       | mk sl hv => rw [hd] at d1 d2; simp only at d1 d2; rw [d1, d2]
